@@ -168,8 +168,44 @@ def namespace(names):
     return {n: (probe.get(n) is not getattr(builtins, n, None)) for n in names}
 
 
+def locations(specs):
+    """ExpandedTraceback.line_number on REAL tracebacks of call chains through files of our choosing.
+    spec: {'chain': [[file, line], ...] (outermost first; the last one raises), 'students': [file, ...], 'offsets': {file: n},
+           'syntax': None | [file, line]}"""
+    from pedal.utilities.exceptions import ExpandedTraceback
+    out = []
+    for sp in specs:
+        fns = []
+        for k, (fname, line) in enumerate(sp['chain']):
+            last = k == len(sp['chain']) - 1
+            body = "    raise ValueError('x')\n" if last else "    return chain[0](chain[1:])\n"
+            src = '\n' * (line - 2) + 'def f(chain):\n' + body          # the call / raise sits on `line`
+            ns = {}
+            exec(compile(src, fname, 'exec'), ns)
+            fns.append(ns['f'])
+        try:
+            fns[0](fns[1:])
+            out.append({'error': 'did not raise'})
+            continue
+        except ValueError as e:
+            exc, info = e, sys.exc_info()
+        if sp.get('syntax'):
+            exc = SyntaxError('bad', (sp['syntax'][0], sp['syntax'][1], 1, 'x = = 1'))
+        import traceback as _tb
+        frames = [[fr.filename, fr.lineno] for fr in _tb.extract_tb(info[2])]
+        try:
+            et = ExpandedTraceback(exc, info, False, [], dict(sp['offsets']), list(sp['students']), [], {f: [] for f in sp['students']})
+            out.append({'line': et.line_number, 'frames': frames})
+        except Exception as e2:
+            out.append({'error': type(e2).__name__ + ': ' + str(e2)[:80], 'frames': frames})
+    return out
+
+
 def main():
     data = json.load(sys.stdin)
+    if 'locations' in data:
+        json.dump({'locations': locations(data['locations'])}, open(sys.argv[1], 'w'))
+        return
     if 'values' in data:
         json.dump({'marshal': marshalling(data['values']), 'namespace': namespace(data['names'])}, open(sys.argv[1], 'w'))
         return
